@@ -3,7 +3,7 @@ from harness import dbgen as D
 from harness.props import c09
 
 RULE = ("histories of <= 8 loads over good file A / good file B (other sections) / the same file again / bad files with the fault at "
-        "every line position / unreadable paths, on ONE shared Database object; an observer takes a full snapshot (every section via "
+        "every line position / bad files that differ from a good one only in the IP version of a signature whose quirk list is legal for the other version / unreadable paths, on ONE shared Database object; an observer takes a full snapshot (every section via "
         "iter_values + len) at EVERY line-read point of every load (wrapped file iterator) and after every return; each snapshot must "
         "equal the complete contents of the version the model says is visible; contents after a successful load must equal a fresh "
         "load of that file alone; before any successful load every section raises DatabaseError; non-trivial = history with >= 1 "
@@ -27,6 +27,28 @@ def generate(R, tier):
                 files.append(R.choice(pool))
             elif r < 0.55 and files:
                 files.append(files[-1])
+            elif r < 0.7:
+                # a file whose ONLY fault is one field of one signature that an earlier good file has with a legal neighbour: the same
+                # quirk list under the other IP version, the same window under another MSS, ... (what is accepted must not depend on what was seen)
+                base = list(R.choice(pool))
+                idx = [k for k, l in enumerate(base) if D.line_kind(l) == "sig" and l.count(":") == 7]
+                done = False
+                R.shuffle(idx)
+                for k in idx:
+                    head, _, val = base[k].partition("=")
+                    f = val.strip().split(":")
+                    if f[0] in ("4", "*") and any(q in f[6].split(",") for q in ("df", "id+", "id-", "0+")):
+                        f[0] = "6"
+                    elif f[0] in ("6", "*") and "flow" in f[6].split(","):
+                        f[0] = "4"
+                    else:
+                        continue
+                    base[k] = head + "= " + ":".join(f)
+                    done = True
+                    break
+                if not done:
+                    base, _ = D.corrupt(R, base)
+                files.append(base)
             else:
                 base = list(R.choice(pool))
                 bad, _ = D.corrupt(R, base)
